@@ -146,7 +146,54 @@ pub mod unit_core {
         //@|     __vx_out2@.len() == __vx_k2,
         //@|     forall |c: int| 0 <= c < __vx_k2 ==> v2(#[trigger] __vx_out2@[c]) == a2(results@[c]),
         //@end
+
+        /// Progress mode of the generic runner.  The reporter thread's body is dropped (rule R-threads: it shares only the
+        /// receivers with the rest) and the scoped chain threads are read as the in-order map they compute (ASSUMED, like
+        /// R-par): this decides WHAT is returned when the call returns, not THAT it returns.
+        fn run_progress(&mut self, n_collect: usize, n_discard: usize) -> (res: Result<(Array3<T>, RunStats), BoxDynError>)
+            requires n_collect + n_discard <= usize::MAX
+            ensures
+                final(self).chains_view().len() == old(self).chains_view().len(),
+                res is Ok ==> a3(res->Ok_0.0).len() == old(self).chains_view().len(),
+                res is Ok ==> forall |c: int| 0 <= c < old(self).chains_view().len() ==>
+                    run_post::<T, Self::Chain>(#[trigger] old(self).chains_view()[c], final(self).chains_view()[c], a3(res->Ok_0.0)[c], n_collect as int, n_discard as int),  // [C10.runner_progress_row_c_is_what_run_returns_for_chain_c]
+                res is Ok ==> res->Ok_0.1 == runstats_of3(a3(res->Ok_0.0)),                                   // [C10.runner_progress_stats_are_those_of_the_returned_draws]
+        //@body id=runner_run_progress file=src/core.rs in_trait=ChainRunner name=run_progress props=C10
+        //@sig fn run_progress (& mut self , n_collect : usize , n_discard : usize ,) -> Result < (Array3 < T > , RunStats) , Box < dyn Error > >
+        //@rules R-threads R-foreach R-wild R-mapcollect R-dynerr
+        //@outtype __vx_out1 Vec<Array2<T>>
+        //@anchor g0 scope=fn pos=after match="^let chains ="
+        //@| let ghost nc = chains@.len() as int;
+        //@loop 1 iter=it
+        //@| invariant
+        //@|     it.iter.end == nc, chains@.len() == nc, chains@ == old(self).chains_view(), txs@.len() == __vx_i1, rxs@.len() == __vx_i1,
+        //@loop 2 iter=it2
+        //@| invariant
+        //@|     n_collect + n_discard <= usize::MAX,
+        //@|     it2.iter.end == nc, chains@.len() == nc, nc == old(self).chains_view().len(),
+        //@|     __vx_q1@.len() == nc - __vx_k1, __vx_out1@.len() == __vx_k1,
+        //@|     forall |c: int| __vx_k1 <= c < nc ==> (#[trigger] chains@[c]) == old(self).chains_view()[c],
+        //@|     forall |c: int| 0 <= c < __vx_k1 ==> run_post::<T, Self::Chain>(#[trigger] old(self).chains_view()[c], chains@[c], a2(__vx_out1@[c]), n_collect as int, n_discard as int),
+        //@loop 3 iter=it3
+        //@| invariant
+        //@|     it3.iter.end == chain_sample.len(),
+        //@|     __vx_out2@.len() == __vx_k2,
+        //@|     forall |c: int| 0 <= c < __vx_k2 ==> v2(#[trigger] __vx_out2@[c]) == a2(chain_sample@[c]),
+        //@end
     }
+    /// `RunStats::from(view)`: a function of the sample (its parts are under contract in unit stats)
+    #[verifier::external_body]
+    pub struct RunStats { _p: u8 }
+    pub uninterp spec fn runstats_of3<T>(x: Seq<Seq<Seq<T>>>) -> RunStats;
+    impl RunStats {
+        #[verifier::external_body]
+        pub fn from<'a, T>(v: ArrayView3<'a, T>) -> (r: RunStats) ensures r == runstats_of3(v3(v)) { unimplemented!() }
+    }
+    impl<T> Array3<T> {
+        #[verifier::external_body]
+        pub fn view<'a>(&'a self) -> (r: ArrayView3<'a, T>) ensures v3(r) == a3(*self) { unimplemented!() }
+    }
+    impl From<ShapeError> for BoxDynError { #[verifier::external_body] fn from(e: ShapeError) -> BoxDynError { BoxDynError } }
 
     // ---- C18: seeded initialisers are functions of (n, d, seed) ----
     pub type T = Fl;
